@@ -1,6 +1,7 @@
 """C03 — USB2 data packet generator (luna/gateware/usb/usb2/packet.py: USBDataPacketGenerator) with the CRC16 unit
 wired as in USBDevice (device.py: data_crc.tx_valid = tx.valid & tx_ready, data_crc.tx_data = tx.data), and the
-class's own standalone=True wiring."""
+class's own standalone=True wiring; plus monitor-only runs of the REAL USBDevice (device.py's own hookup of the shared CRC16
+unit and the transmit multiplexer) under a heavily stalling PHY (case kind "usbdevice")."""
 from harness.common.framework import Case
 from harness.common.rng import Rng
 from harness.common import sim
@@ -20,7 +21,15 @@ RULE = ("cases = wiring (device | standalone) x packet script; closed-loop strea
         "a different value k cycles after the request, k drawn per packet from 1..stall_len+3, i.e. every offset of the "
         "PID stall and beyond (1/2) | redrawn every cycle, also during the idle gap before the request (1/4); the "
         "monitor requires the PID byte selected by data_pid IN THE REQUEST CYCLE; 'malformed' cases drive random "
-        "valid/first/last/payload/data_pid every cycle (model comparison only, monitor off)")
+        "valid/first/last/payload/data_pid every cycle (model comparison only, monitor off); "
+        "'usbdevice' cases (monitor only, 12 quick / 80 thorough): the real USBDevice of device.py (standard control endpoint "
+        "+ bulk IN stream endpoint, descriptor sets 'long' / 'std' of harness/common/devharness.py) driven by a host that "
+        "alternates GET_DESCRIPTOR control-IN transfers (random descriptor and wLength, data stages of 1..3 packets, 1..64 "
+        "bytes each) and bulk IN packets of 1..63 bytes, each data packet ACKed; PHY tx_ready per transmitted packet: every "
+        "byte position stalled 1..3 cycles | each position stalled with 25 % for 1..5 cycles | 50 % random | one or two "
+        "stalls of 1..7 cycles exactly before the PID / first / random / last payload byte / first / second CRC byte | never; "
+        "every data packet the device transmits must be [PID with the expected toggle] ++ expected payload ++ CRC16-LE by "
+        "usbref, and a byte offered while tx_ready is low must be held")
 ASSUMPTIONS = [
     "stream producer: valid held from the first to the last byte, first on the first byte, last on the last, payload "
     "stable while a byte is not accepted; a ZLP request is valid & last & ~first for one cycle while "
@@ -39,8 +48,13 @@ NAMES_OUT = ["tx.valid", "tx.data", "stream.ready", "crc.crc"]
 
 def gen_cases(tier, rng):
     n = {"quick": 64, "widen": 256}.get(tier, 800)
-    return [{"wiring": ["device", "standalone"][k % 2 if k % 4 else 0], "malformed": 1 if k % 8 == 5 else 0,
-             "seed": rng.u64(), "k": k} for k in range(n)]
+    out = [{"wiring": ["device", "standalone"][k % 2 if k % 4 else 0], "malformed": 1 if k % 8 == 5 else 0,
+            "seed": rng.u64(), "k": k} for k in range(n)]
+    # the REAL USBDevice (device.py's own CRC / multiplexer hookup), monitor only
+    nd = {"quick": 12, "widen": 32}.get(tier, 80)
+    out += [{"kind": "usbdevice", "wiring": "usbdevice", "seed": rng.u64(), "k": k,
+             "shape": ["long", "std", "long"][k % 3]} for k in range(nd)]
+    return out
 
 
 def build(wiring):
@@ -221,7 +235,217 @@ def monitor(pk, irows, orows, stuck=()):
     return fails
 
 
+# ----------------------------------------------------------------------------- the real USBDevice
+def _stall_harness(spec, timing_rng, ready_rng):
+    """DevHarness (harness/common/devharness.py: the real USBDevice + standard control endpoint + endpoints on a plain
+    UTMI bus) with a PHY that stalls heavily: per transmitted packet one of
+      all     every byte position (PID, every payload byte, both CRC bytes) is stalled 1..3 cycles
+      sparse  each byte position stalled with probability 25 % for 1..5 cycles
+      dens    tx_ready random, 50 %
+      target  one long stall (1..7 cycles) exactly before the PID / first payload byte / a random payload byte / the
+              last payload byte / the first CRC byte / the second CRC byte is accepted (positions from the length the
+              host script expects)
+      always  never stalled
+    tx_ready only depends on what was accepted in earlier cycles."""
+    from harness.common import devharness as DH
+
+    class StallHarness(DH.DevHarness):
+        def __init__(self):
+            super().__init__(spec, timing_rng)
+            self.rr = ready_rng
+            self.hint_total = None       # number of bytes of the packet the host expects next (for 'target')
+            self.all_rows = []           # (tx_valid, tx_ready, tx_data) of every cycle
+            self._acc, self._left, self._mode, self._inpkt, self._tgt = 0, None, None, False, {}
+
+        def _draw_mode(self):
+            rr = self.rr
+            self._mode = rr.weighted([(4, "all"), (3, "sparse"), (2, "dens"), (6, "target"), (1, "always")])
+            self._tgt = {}
+            if self._mode == "target":
+                n = self.hint_total or 1
+                cand = [0, 1, n - 3, n - 2, n - 1, n - 2, n - 1] + ([rr.range(1, n - 3)] if n > 4 else [])
+                for _ in range(rr.choice([1, 1, 2])):
+                    self._tgt[max(rr.choice(cand), 0)] = rr.range(1, 7)
+
+        def _draw_stall(self):
+            rr, m = self.rr, self._mode
+            if m == "all":
+                return rr.range(1, 3)
+            if m == "sparse":
+                return rr.range(1, 5) if rr.chance(25) else 0
+            if m == "target":
+                return self._tgt.get(self._acc, 0)
+            return 0
+
+        async def _tick(self, ctx, rx=(0, 0, 0), line_state=None):
+            u = self.utmi
+            if rx != self._rx:
+                if rx[0] != self._rx[0]:
+                    ctx.set(u.rx_active, rx[0])
+                if rx[1] != self._rx[1]:
+                    ctx.set(u.rx_valid, rx[1])
+                if rx[2] != self._rx[2]:
+                    ctx.set(u.rx_data, rx[2])
+                self._rx = rx
+            ls = line_state if line_state is not None else (self.LINE_K if rx[0] else self.LINE_J)
+            if ls != self._ls:
+                ctx.set(u.line_state, ls)
+                self._ls = ls
+            if self._mode is None:
+                self._draw_mode()
+            if self._left is None:
+                self._left = self._draw_stall()
+            if self._mode == "dens":
+                ready = 1 if self.rr.chance(50) else 0
+            else:
+                ready = 0 if self._left > 0 else 1
+            if ready != self._ready:
+                ctx.set(u.tx_ready, ready)
+                self._ready = ready
+            v = ctx.get(u.tx_valid)
+            d = ctx.get(u.tx_data) if v else 0
+            self.tx_rows.append((1 if v else 0, ready, d))
+            self.all_rows.append((1 if v else 0, ready, d))
+            if v:
+                self._inpkt = True
+                if ready:
+                    self._acc += 1
+                    self._left = None
+                elif self._left:
+                    self._left -= 1
+            elif self._inpkt:                    # the packet has ended: new schedule for the next one
+                self._inpkt, self._acc, self._left, self._mode = False, 0, None, None
+            await ctx.tick("usb")
+            self.cycle += 1
+            return v
+
+    return StallHarness()
+
+
+def run_usbdevice(desc):
+    """Monitor-only: control-IN data stages (GET_DESCRIPTOR, one to three packets of up to 64 bytes) and bulk IN packets
+    (1..63 bytes) of the real USBDevice under the stalling PHY; every transmitted data packet must be
+    [PID] ++ payload ++ CRC16-LE (usbref), and a byte offered while tx_ready is low must be held."""
+    from harness.common import devharness as DH
+    rng = Rng(desc["seed"])
+    spec = {"desc": DH.descriptor_table(desc.get("shape", "long")), "eps": [["in", 1, 64]], "handlers": []}
+    h = _stall_harness(spec, rng.fork("timing"), rng.fork("ready"))
+    hr = rng.fork("host")
+    fails, tags = [], {"wiring:usbdevice", "shape:" + desc.get("shape", "long")}
+    judged = [0]
+
+    def fail(sig, what):
+        if len(fails) < 3:
+            fails.append({"cycle": max(len(h.log) - 1, 0), "sig": sig, "what": what})
+
+    def judge(res, want_pid, chunk, where):
+        """res: EventResult of an IN token that must be answered with the data packet (want_pid, chunk)."""
+        pk = res.resp.packets
+        if len(pk) != 1 or not pk[0] or (pk[0][0] & 0xF) not in DH.DATA_PIDS:
+            return False
+        p = pk[0]
+        judged[0] += 1
+        n = len(p)
+        # where did this packet get stalled?
+        acc = 0
+        for v, r, _d in h.tx_rows:
+            if v and not r:
+                tags.add("stall:" + ("pid" if acc == 0 else "crc1" if acc == n - 2 else "crc2" if acc == n - 1 else
+                                     "first-payload" if acc == 1 else "last-payload" if acc == n - 3 else "payload"))
+            if v and r:
+                acc += 1
+        tags.add("devlen:%s" % ("zlp" if n == 3 else "1" if n == 4 else "2-63" if n < 67 else "64"))
+        c = U.usb2_crc16(chunk)
+        want = [U.pid_byte(want_pid)] + list(chunk) + [c & 0xFF, c >> 8]
+        if p != want:
+            if p[:1] != want[:1]:
+                sig = "dev-tx-pid"
+            elif p[1:-2] != want[1:-2] or len(p) < 3:
+                sig = "dev-tx-payload"
+            else:
+                sig = "dev-tx-crc16"
+            fail(sig, "%s: the device transmitted %s; required [PID %#04x] ++ payload ++ CRC16 low, high = %s"
+                 % (where, bytes(p).hex(), want[0], bytes(want).hex()))
+        return True
+
+    def in_data(addr_ep, want_pid, chunk, where):
+        """IN token until the device answers with data (NAK = not ready yet, asked again a few times), then ACK."""
+        for _try in range(4):
+            h.hint_total = 3 + len(chunk)
+            res = yield ["tok", U.PID_IN, 0, addr_ep]
+            h.hint_total = None
+            if judge(res, want_pid, chunk, where):
+                yield ["hs", U.PID_ACK]
+                return True
+            if res.resp.is_hs(U.PID_NAK) or res.resp.is_none:
+                tags.add("in-nak" if res.resp.is_hs() else "in-silent")
+                continue
+            fail("dev-tx-malformed", "%s: the answer to the IN token is %r, not a data packet" % (where, res.resp))
+            return False
+        return False
+
+    def host(_h):
+        bulk_pid = U.PID_DATA0
+        for step in range(desc.get("steps", 7)):
+            if fails:
+                return
+            if step % 2 == 0:
+                t, i, b = hr.choice([d for d in spec["desc"] if len(d[2]) > 2])
+                wlen = hr.choice([len(b), len(b), 255, hr.range(1, len(b)), hr.range(1, min(len(b), 12))])
+                total = min(wlen, len(b))
+                if total % 64 == 0:          # keep the transfer ending in a short packet (ZLP rules belong to C09/C10)
+                    wlen = total = total - hr.range(1, 5)
+                yield ["tok", U.PID_SETUP, 0, 0]
+                r = yield ["data", U.PID_DATA0, DH.setup_bytes(0x80, 6, (t << 8) | i, 0, wlen), 1]
+                if not r.resp.is_hs(U.PID_ACK):
+                    raise RuntimeError("SETUP not acknowledged: %r" % r)
+                pid, off = U.PID_DATA1, 0
+                while off < total:
+                    chunk = b[off:min(off + 64, total)]
+                    ok = yield from in_data(0, pid, chunk, "GET_DESCRIPTOR(%d,%d) wLength=%d, data stage bytes %d..%d"
+                                            % (t, i, wlen, off, off + len(chunk) - 1))
+                    if not ok:
+                        break
+                    off += len(chunk)
+                    pid = U.PID_DATA0 if pid == U.PID_DATA1 else U.PID_DATA1
+                    tags.add("ctrl-in-pkts>=%d" % min(off // 64 + 1, 3))
+                yield ["tok", U.PID_OUT, 0, 0]
+                yield ["data", U.PID_DATA1, [], 1]
+            else:
+                for _ in range(hr.range(1, 3)):
+                    n = hr.weighted([(2, 1), (2, 2), (2, 3), (6, hr.range(4, 20)), (3, hr.range(21, 63))])
+                    data = hr.bytes(n)
+                    r = yield ["produce", 1, data, 1]
+                    if r.delivered != n:
+                        raise RuntimeError("bulk IN endpoint took %r of %d bytes" % (r.delivered, n))
+                    ok = yield from in_data(1, bulk_pid, data, "bulk IN packet of %d bytes" % n)
+                    if not ok:
+                        return
+                    bulk_pid = U.PID_DATA0 if bulk_pid == U.PID_DATA1 else U.PID_DATA1
+                    tags.add("bulk-in")
+
+    log = h.run(host)
+    # UTMI: a byte offered while tx_ready is low stays offered, unchanged, in the next cycle
+    rows = h.all_rows
+    for t in range(len(rows) - 1):
+        v, r, d = rows[t]
+        if v and not r and (not rows[t + 1][0] or rows[t + 1][2] != d):
+            fail("dev-tx-data-unstable", "cycle %d: tx_data=%#04x offered with tx_ready low, next cycle tx_valid=%d tx_data=%#04x"
+                 % (t, d, rows[t + 1][0], rows[t + 1][2]))
+            break
+    if not judged[0] and not fails:
+        raise RuntimeError("the device run produced no data packet to judge")
+    tags.add("dev-packets>=%d" % (10 if judged[0] >= 10 else 1))
+    d = dict(desc)
+    inputs = [DH.encode_event(r.event) for r in log]
+    outputs = [r.resp.encode() for r in log]
+    return Case([2], inputs, outputs, fails, sorted(tags), d, ["event…"], ["kind", "pid", "len", "bytes…"], lean=False)
+
+
 def run_case(desc):
+    if desc.get("kind") == "usbdevice":
+        # a replay re-runs the adaptive host from the seed (the run is a function of the seed)
+        return run_usbdevice({k: v for k, v in desc.items() if k != "stimulus"})
     top, gen = build(desc["wiring"])
     rng = Rng(desc["seed"])
     tags = ["wiring:" + desc["wiring"]]
